@@ -331,6 +331,55 @@ def queue_append_only(cx, run, rule, qs):
     run.floor(rule, n, 2, "direct queue mutations")
 
 
+def accepted_is_queued(cx, run, rule, qs):
+    """Every accepted frame is accounted: on every path through a frame-writing entry that ends in a success exit, exactly the thing
+    that makes the frame exist later happened - a push onto the track's sample queue, directly or through a callee of which the same
+    holds (must-pass-through on the CFG, fixpoint over the local call graph).  `Ok` without queuing is a frame the caller was told was
+    accepted and that neither the file nor the statistics contain."""
+    an, u, g = cx.an, cx.u, cx.g
+    vq, aq = qs
+    push_blocks = {}
+    for p in cx.live:
+        for (bb, i, (root, path), why, node) in cx.st.sites[p]:
+            if why == "extcall std::vec::Vec::push" and len(path) == 1 and path[0] in (vq, aq):
+                push_blocks.setdefault(p, set()).add(bb)
+    cands = {p for p in cx.live if (g.reach([p]) & set(push_blocks)) and cx.live[p]["locals"][0]["ty"].startswith("std::result::Result<")}
+    queuer = set(cands)
+
+    def violations(p):
+        b = u.bodies[p]
+        qb = set(push_blocks.get(p, ()))
+        for bb, t, name, info in mir.calls(b):
+            if name in queuer and name != p:
+                qb.add(bb)
+        out = []
+        free = mir.reachable(b, [0], avoid=qb)
+        for e in flow.exits(b):
+            if e["kind"] in ("err", "residual"):
+                continue
+            if e["kind"] == "deleg" and e.get("callee") in queuer:
+                continue
+            if e["bb"] in free:
+                out.append(e)
+        return out
+    changed = True
+    while changed:
+        changed = False
+        for p in sorted(queuer):
+            if violations(p):
+                queuer.discard(p)
+                changed = True
+    entries = [p for p in API_WRITE_ENTRIES if p in cx.live] + sorted(p for p in push_blocks)
+    n = 0
+    for p in entries:
+        n += 1
+        v = [] if p in queuer else violations(p)
+        run.check(p in queuer, rule, "accepted => queued %s" % mir.norm(p), "every success exit lies behind a push onto the sample queue (directly or through a callee that guarantees it)",
+                  "%s can return success without the frame having been pushed onto a sample queue (success exit in bb %s reachable around every queuing call): the caller is told the frame was accepted, but the file and the statistics will not contain it"
+                  % (mir.norm(p), ", ".join(str(e["bb"]) for e in v[:3])), mir.loc_of(v[0]["node"]) if v else mir.loc_of(u.bodies[p]))
+    run.floor(rule, n, 6, "frame-writing entries checked for accepted => queued")
+
+
 def r5(cx, run):
     an, u, g = cx.an, cx.u, cx.g
     vq, aq = queues(cx)
@@ -340,6 +389,8 @@ def r5(cx, run):
     vq, aq = next(iter(vq)), next(iter(aq))
     run.extra["queues"] = {"video": vq, "audio": aq}
     queue_append_only(cx, run, "R5", (vq, aq))
+    run.rule("R8", "accepted => queued: every success exit of a frame-writing entry (API and writer level) is reachable only through a push onto the track's sample queue")
+    accepted_is_queued(cx, run, "R8", (vq, aq))
     # R7: only stores into what the statistics are computed from matter here (the queues and the last-delta fields paired with them)
     from . import c05
     stat_state = {vq, aq} | set(last_delta_pairing(cx, (vq, aq)).values())
